@@ -49,9 +49,12 @@ FirstItemOf(K, sid) ==
   IN IF its = <<>> THEN UnknownI ELSE its[1]
 
 (* a small alphabet of representative messages, built from the state      *)
+SecondStory(K) == LET s == StoryIds(K) IN IF Len(s) < 2 THEN UnknownS ELSE s[2]
+
 Alphabet(K) ==
   LET f == FirstStory(K)
       l == LastStory(K)
+      sec == SecondStory(K)
       fi == FirstItemOf(K, f)
       fk == IF Idx(K, "story", f) = 0 THEN <<>> ELSE K[Idx(K, "story", f)].kids
   IN { Msg("StoryAppend", RefAbsent, RefAbsent, <<>>, FreshStories(K, 1)),
@@ -65,9 +68,14 @@ Alphabet(K) ==
        Msg("MetaDataReplace", RefAbsent, RefAbsent, <<>>,
            << Leaf("roID", RoIdC, "="), Leaf("roSlug", None, "x:newSlug") >>),
        Msg("StoryDelete", RefAbsent, RefAbsent, <<RefId(UnknownS)>>, <<>>),
+       Msg("EAStorySwap", RefAbsent, RefAbsent, <<RefId(l), RefId(sec)>>, <<>>),        \* first story stays
+       Msg("StoryAppend", RefAbsent, RefAbsent, <<>>,
+           <<StoryNT(FreshFrom(FreshPoolS, IdSet(K, "story"))[1])>>),                     \* a story without timing
+       Msg("StoryInsert", RefId(l), RefAbsent, <<>>, FreshStories(K, 1)),
+       Msg("EAItemMove", RefId(f), RefId(fi), <<RefId("I2")>>, <<>>),
        Msg("StoryReplace", RefId(UnknownS), RefAbsent, <<>>, FreshStories(K, 1)),
        Msg("RunningOrderEnd", RefAbsent, RefAbsent, <<>>, <<Leaf("roDelete", None, "x:roDelete")>>) }
-     \cup { m \in SendMsgs(K) : m.story = RefId(l) /\ m.bodyPos = 4 /\ Len(m.body) = 4 }
+     \cup { m \in SendMsgs(K) : m.story = RefId(l) /\ m.bodyPos = 4 /\ Len(m.body) >= 4 }
      \cup { m \in OtherMsgs("RunningOrderReplace", K) : Len(m.carried) = 3 }
 
 StoryIdsSet(K) == IdSet(K, "story")
